@@ -260,6 +260,9 @@ def run_e2(tier: str) -> Dict[str, Any]:
     b = z3.String("b")
     nonpct = z3re.not_chars("%")
     base = [z3.Length(s) <= N, z3.Not(z3.Contains(s, z3.StringVal("\n")))]
+    if z3re.USED_CATEGORIES:
+        # \w / \s / \D ... are translated for ASCII subjects only
+        base.append(z3re.ascii_only(s))
     out: Dict[str, Any] = {"violations": [], "known_lines": [], "harness_errors": [], "samples": []}
     known_ids = {e["id"] for e in load_known(ID) if e.get("engine") == "e2"}
 
@@ -328,7 +331,7 @@ def run_e2(tier: str) -> Dict[str, Any]:
     out["inconclusive"] = [e["name"] for e in q.log if e["result"] not in ("sat", "unsat")]
     out["log"] = q.log
     out["samples"] = results[:6]
-    out["bound"] = f"|template| <= {N}, no newline; key nesting depth <= 5"
+    out["bound"] = f"|template| <= {N}, no newline; key nesting depth <= 5" + ("; ASCII templates (the pattern uses \\w / \\s classes)" if z3re.USED_CATEGORIES else "")
     return out
 
 
